@@ -154,6 +154,40 @@ def run(ctx: Ctx) -> None:
             sliced = any(o.kind in ("cat_slice", "rot_half", "stack_mean", "conv1d", "reshape") for o in prog.ops)
             tol = {torch.float32: 1e-5, torch.float64: 1e-12, torch.bfloat16: 2.0 ** -6}[dt]
 
+            def layout_only() -> bool:
+                """Counterfactual for the listed finding: an untracked run in which every float tensor is replaced by a
+                contiguous copy (forward) and every gradient by a contiguous copy (backward) - the only thing the tracker
+                does to values. If that run is bit-identical to the tracked one, the difference from the plain run is the
+                memory-layout effect and nothing else."""
+                class Copy(torch.autograd.Function):
+                    @staticmethod
+                    def forward(c, t):  # type: ignore[no-untyped-def]
+                        return t.clone()
+
+                    @staticmethod
+                    def backward(c, g):  # type: ignore[no-untyped-def]
+                        return g.clone()
+
+                class LayoutRef(torch.fx.Interpreter):
+                    def run_node(self, n):  # type: ignore[no-untyped-def]
+                        o = super().run_node(n)
+                        return Copy.apply(o) if isinstance(o, torch.Tensor) and o.is_floating_point() else o
+
+                try:
+                    mod_l = copy.deepcopy(base)
+                    xl = [x.clone().requires_grad_(True) if x.is_floating_point() else x for x in xs0]
+                    outl = LayoutRef(fg.trace_fx(mod_l)).run(*xl)
+                    outl = outl if isinstance(outl, tuple) else (outl,)
+                    backward_through(outl, which, 50 + ri)
+                    if len(outl) != len(outt) or any(a.dtype != b.dtype or not torch.equal(a, b) for a, b in zip(outt, outl)):
+                        return False
+                    gl = [x.grad for x in xl if x.is_floating_point()] + [p.grad for p in mod_l.parameters()]
+                    gt = [x.grad for x in xt if x.is_floating_point()] + [p.grad for p in params_t]
+                    return len(gl) == len(gt) and all((a is None) == (b is None) and (a is None or torch.equal(a, b))
+                                                      for a, b in zip(gt, gl))
+                except Exception:  # noqa: BLE001
+                    return False
+
             def rounding_level(pairs) -> bool:
                 for a, b in pairs:
                     if (a is None) != (b is None):
@@ -164,7 +198,8 @@ def run(ctx: Ctx) -> None:
                 return True
 
             if len(outt) != len(outr) or any(a.dtype != b.dtype or not torch.equal(a, b) for a, b in zip(outt, outr)):
-                ctx.violation("C18:clone-changes-layout" if (sliced and len(outt) == len(outr) and rounding_level(zip(outt, outr)))
+                ctx.violation("C18:clone-changes-layout" if (sliced and len(outt) == len(outr) and
+                                                             (rounding_level(zip(outt, outr)) or layout_only()))
                               else "C18:outputs", "outputs differ (value or dtype) with tracking", rkey, [str(a.dtype) for a in outt])
                 break
             gi_t = [x.grad for x in xt if x.is_floating_point()]
@@ -173,7 +208,7 @@ def run(ctx: Ctx) -> None:
             gp_r = [p.grad for p in mod_r.parameters()]
             pairs = list(zip(gi_t, gi_r)) + list(zip(gp_t, gp_r))
             if any((a is None) != (b is None) or (a is not None and not torch.equal(a, b)) for a, b in pairs):
-                ctx.violation("C18:clone-changes-layout" if (sliced and rounding_level(pairs)) else "C18:gradients",
+                ctx.violation("C18:clone-changes-layout" if (sliced and (rounding_level(pairs) or layout_only())) else "C18:gradients",
                               "gradients differ with tracking", rkey)
                 break
             # (2) metrics = statistics of the tensors that flowed (direct path: node names coincide)
